@@ -19,10 +19,15 @@ ENV_CAL = "ISODATETIMECALENDAR"
 
 
 class _StructTime(object):
-    __slots__ = ("tm_isdst",)
+    """What localtime() returns in the simulated world: the DST flag, and --
+    for an implementation that prefers them -- the matching tm_gmtoff /
+    tm_zone of the configuration in force."""
+    __slots__ = ("tm_isdst", "tm_gmtoff", "tm_zone")
 
-    def __init__(self, isdst):
+    def __init__(self, isdst, gmtoff):
         self.tm_isdst = isdst
+        self.tm_gmtoff = gmtoff
+        self.tm_zone = "SIM"
 
 
 class SimClock(object):
@@ -62,8 +67,7 @@ class TimeFacade(object):
         self.total_reads = 0
         self.pending = []
         self.fired = []        # transitions that fired inside the current op
-        self.strptime = _real_time_module.strptime
-        self.struct_time = _real_time_module.struct_time
+        self.unsimulated = []
 
     # -- sim side
     def begin_op(self, pending=()):
@@ -109,7 +113,18 @@ class TimeFacade(object):
         return self._served("daylight", self.zones[self.cur][2])
 
     def localtime(self, secs=None):
-        return _StructTime(self._served("isdst", self.isdst))
+        tz, alt, dl = self.zones[self.cur]
+        gmtoff = -alt if (self.isdst == 1 and dl) else -tz
+        return _StructTime(self._served("isdst", self.isdst), gmtoff)
+
+    def __getattr__(self, name):
+        # anything else an implementation may want from `time` (strptime,
+        # struct_time, ...) is the real thing; counted so that evidence shows
+        # if the library starts reading an attribute the world does not model
+        if name.startswith("__"):
+            raise AttributeError(name)
+        self.unsimulated.append(name)
+        return getattr(_real_time_module, name)
 
     def time(self):
         us = self.clock.read()
